@@ -2,6 +2,7 @@
 with the same parameter lists as the macros (shapes.VECS).  Mode R unless stated."""
 from extract import Contract
 from shapes import VEC, VECS
+from xparse import norm
 
 C = Contract
 
@@ -78,6 +79,7 @@ def add_struct_core(u, sh):
     u.take(P, gh, 'into_array', C(ensures=['res@ == %s' % seq]), mode='G')
     # From<T>: the meaning of a scalar operand
     u.take_impl(P, 'impl<T: Copy> From<T> for %s<T>' % N, mode='G')
+    u.from_given.add(norm('impl<T: Copy> From<T> for %s<T>' % N))
     u.add(P, f"""impl<T: Copy> FromSpecImpl<T> for {N}<T> {{
     open spec fn obeys_from_spec() -> bool {{ true }}
     open spec fn from_spec(val: T) -> {N}<T> {{ {sh.lit(['val'] * sh.dim)} }}
@@ -96,14 +98,8 @@ def add_arith_core(u, sh, ops=('Add', 'Sub', 'Mul', 'Div'), refs=False):
         u.take_impl(P, hdr, {m: C(ensures=[
             'V::obeys_into_spec() ==> ' + ev(sh, 'res', i) + ' == ' + opx(tr, ev(sh, 'self', i), ev(sh, 'rhs.into_spec()', i))
             for i in range(n)])})
-        u.add(P, spec_companion(tr, m, '<V>', 'V', T, 'where V: Into<%s>' % T))
     hdr = 'impl<T> Neg for %s<T> where T: Neg<Output = T>' % N
     u.take_impl(P, hdr, {'neg': C(ensures=[ev(sh, 'res', i) + ' == -' + ev(sh, 'self', i) for i in range(n)])})
-    u.add(P, f"""impl NegSpecImpl for {T} {{
-    open spec fn obeys_neg_spec() -> bool {{ false }}
-    open spec fn neg_req(self) -> bool {{ true }}
-    open spec fn neg_spec(self) -> Self::Output {{ arbitrary() }}
-}}""")
     u.take(P, gh, 'mul_add', C(
         requires=['V0::obeys_into_spec()', 'V1::obeys_into_spec()'],
         ensures=[ev(sh, 'res', i) + ' == ' + ev(sh, 'self', i) + ' * ' + ev(sh, 'mul.into_spec()', i) + ' + ' +
